@@ -74,7 +74,16 @@ impl WatchexecFilterer {
 		let workdir = args.command.workdir.clone().unwrap();
 
 		let ignore_files = if args.filtering.no_discover_ignore {
-			Vec::new()
+			// explicitly given ignore files are not "discovered"
+			args.filtering
+				.ignore_files
+				.iter()
+				.map(|ig| ignore_files::IgnoreFile {
+					applies_to: None,
+					applies_in: None,
+					path: ig.clone(),
+				})
+				.collect()
 		} else {
 			let vcs_types = crate::dirs::vcs_types(&project_origin).await;
 			crate::dirs::ignores(args, &vcs_types).await?
